@@ -46,12 +46,16 @@ SCENARIOS = {
     'single-message-tracks': [[ev('tempo', 0, 1)], [ev('n', 4, 2)], [ev('eot', 9)], [ev('n', 1, 3), ev('n', 1, 4)]],
     # meta events of types the library does not know, and text events (whatever charset their file was loaded with)
     'unknown-meta-and-text': [[ev('unk', 3, 1), ev('n', 2, 2), ev('txt', 0, 3)], [ev('unk', 4, 4), ev('txt', 1, 5), ev('eot', 2)]],
+    # tracks may hold frozen messages (the documented way to keep messages in sets and as dictionary keys): they merge like any
+    # other, and come out frozen
+    'frozen-messages': [[ev('tempo', 0, 1), ev('n', 5, 2), ev('unk', 1, 3), ev('eot', 4)], [ev('n', 5, 4), ev('tempo', 0, 5), ev('eot', 1)]],
 }
 
 
-def build(ai, ctx, spec):
+def build(ai, ctx, spec, frozen=False):
     tracks = []
     allmsgs = []
+    fz = {n_: ctx.p.cls('mido.frozen', 'Frozen' + n_) for n_ in ('Message', 'MetaMessage', 'UnknownMetaMessage')} if frozen else {}
     for ti, tr in enumerate(spec):
         msgs = []
         for kind, t, note in tr:
@@ -66,6 +70,8 @@ def build(ai, ctx, spec):
                 m = wire.make_meta(ai, ctx, 'track_name', {'name': wire.StrSym(f'N{note}')}, t)
             else:
                 m = wire.make_meta(ai, ctx, 'end_of_track', {}, t)
+            if frozen and m.cls is not None and m.cls.name in fz:
+                m.cls = fz[m.cls.name]
             m.stores.clear()            # (what the constructor stored is not a modification by merge_tracks)
             msgs.append(m)
             allmsgs.append(m)
@@ -123,7 +129,7 @@ def r12_scenarios(ctx):
             holder = {}
 
             def thunk():
-                tracks, allmsgs = build(ai, ctx, spec)
+                tracks, allmsgs = build(ai, ctx, spec, frozen=name.startswith('frozen'))
                 holder['tracks'] = tracks
                 holder['msgs'] = allmsgs
                 holder['before'] = [dict(m.attrs) for m in allmsgs]
@@ -167,7 +173,7 @@ def r12_scenarios(ctx):
             ctx.require(untouched, 'R12.4', f'{inst}.inputs', w, 'merge_tracks modifies its input tracks or messages', construct=cons + '::inputs-modified')
             fresh = all(not any(x is m for m in holder['msgs']) or x.attrs.get('time') == m_time(holder, x) for x in items)
             ctx.require(fresh, 'R12.4', f'{inst}.aliasing', w, 'an input message appears in the result with a changed time', construct=cons + '::aliasing')
-    ctx.floor('R12.1', n, 24)
+    ctx.floor('R12.1', n, 26)
     for q in ai.inlined:
         ctx.functions.add(q)
 
